@@ -228,13 +228,13 @@ func (g *ProgGen) Expr(depth int) Expr {
 			x = &EGroup{X: x}
 		}
 		if r.Intn(2) == 0 {
-			keys := []string{"k", "a", "Name", "Count", "hidden", "Items", "length", "index", "missing", "Extra", "N", "Any", "Inner", "PP", "Next"}
+			keys := []string{"k", "a", "Name", "Count", "hidden", "hiddenFn", "Items", "length", "index", "missing", "Extra", "N", "Any", "Inner", "PP", "Next"}
 			return &EAttr{X: x, Key: &EStr{S: g.pickS(keys)}, Dot: true}
 		}
 		return &EAttr{X: x, Key: g.Expr(d), Dot: false}
 	case 11:
 		x := Expr(&EName{Name: g.name()})
-		ms := []string{"ValueMethod", "PtrMethod", "Add", "Concat", "Variadic", "Two", "Nothing", "NilFunc", "Fn", "TakesPtr", "TakesFloat", "TakesSlice", "hiddenMethod", "nope"}
+		ms := []string{"ValueMethod", "PtrMethod", "Add", "Concat", "Variadic", "Two", "Nothing", "NilFunc", "Fn", "TakesPtr", "TakesFloat", "TakesSlice", "hiddenMethod", "hiddenFn", "hiddenNil", "nope"}
 		n := r.Intn(3)
 		args := make([]Expr, n)
 		for i := range args {
